@@ -157,10 +157,12 @@ deriving DecidableEq, Repr
 /-- one coordinate token in one of the CASA notations. -/
 inductive Coord
   | dec (d : Dec) (u : CUnit)                   -- `12.5deg`, `1.5rad`, `3pix`, `12.5`
-  | hms (neg : Bool) (h m : Nat) (s : Dec)      -- `12h30m15.5s`
-  | dms (neg : Bool) (d m : Nat) (s : Dec)      -- `-12d30m15.5s`
-  | colon (neg : Bool) (h m : Nat) (s : Dec)    -- `12:30:15.5`   (hours)
-  | dots (neg : Bool) (d m : Nat) (s : Dec)     -- `-012.30.15.5` (degrees)
+  | hms (neg : Bool) (h m : Nat) (s : Dec) (plus : Bool := false)      -- `12h30m15.5s`
+  | dms (neg : Bool) (d m : Nat) (s : Dec) (plus : Bool := false)      -- `-12d30m15.5s`
+  | colon (neg : Bool) (h m : Nat) (s : Dec) (plus : Bool := false)    -- `12:30:15.5`   (hours)
+  | dots (neg : Bool) (d m : Nat) (s : Dec) (plus : Bool := false)     -- `-012.30.15.5` (degrees)
+  | hm (neg : Bool) (h m : Nat) (plus : Bool := false)                 -- `-0h30m`  (no seconds field)
+  | dm (neg : Bool) (d m : Nat) (plus : Bool := false)                 -- `-0d30m`
 deriving DecidableEq, Repr
 
 /-- unit suffix of a length. -/
@@ -229,14 +231,18 @@ def CUnit.render : CUnit → String
 
 def nat2 (n : Nat) : String := padLeft (toString n) 2
 
-def sgn (neg : Bool) : String := if neg then "-" else ""
+/-- the sign character: `-`, an explicit `+`, or nothing (the sign of a sexagesimal token is this
+character, whatever the leading field is: `-00.30.00.0` is minus half a degree). -/
+def sgn (neg : Bool) (plus : Bool := false) : String := if neg then "-" else if plus then "+" else ""
 
 def Coord.render : Coord → String
   | .dec d u => d.render ++ u.render
-  | .hms n h m s => sgn n ++ nat2 h ++ "h" ++ nat2 m ++ "m" ++ s.render ++ "s"
-  | .dms n d m s => sgn n ++ nat2 d ++ "d" ++ nat2 m ++ "m" ++ s.render ++ "s"
-  | .colon n h m s => sgn n ++ nat2 h ++ ":" ++ nat2 m ++ ":" ++ s.render
-  | .dots n d m s => sgn n ++ padLeft (toString d) 3 ++ "." ++ nat2 m ++ "." ++ s.render
+  | .hms n h m s p => sgn n p ++ nat2 h ++ "h" ++ nat2 m ++ "m" ++ s.render ++ "s"
+  | .dms n d m s p => sgn n p ++ nat2 d ++ "d" ++ nat2 m ++ "m" ++ s.render ++ "s"
+  | .colon n h m s p => sgn n p ++ nat2 h ++ ":" ++ nat2 m ++ ":" ++ s.render
+  | .dots n d m s p => sgn n p ++ padLeft (toString d) 3 ++ "." ++ nat2 m ++ "." ++ s.render
+  | .hm n h m p => sgn n p ++ toString h ++ "h" ++ toString m ++ "m"
+  | .dm n d m p => sgn n p ++ toString d ++ "d" ++ toString m ++ "m"
 
 def LUnit.render : LUnit → String
   | .deg => "deg" | .rad => "rad" | .arcmin => "arcmin" | .arcsec => "arcsec" | .pix => "pix"
